@@ -28,6 +28,10 @@ def child_env():
     env['PYTHONDONTWRITEBYTECODE'] = '1'
     env['HEPHAESTUS_VERIF'] = '1'
     env['VERIF_REPO'] = repo_path()
+    # glibc allocator tuning only (the generator's deepcopy churn otherwise spends most of its time in munmap)
+    env.setdefault('MALLOC_TOP_PAD_', '67108864')
+    env.setdefault('MALLOC_TRIM_THRESHOLD_', '1000000000')
+    env.setdefault('MALLOC_MMAP_THRESHOLD_', '1000000000')
     deps = os.path.join(ROOT, '.deps')
     pp = [ROOT]
     if os.path.isdir(deps):
@@ -58,7 +62,26 @@ def match_finding(findings, pid, signature):
     return None
 
 
+def build_native():
+    """Build the optional allocator shim if a fresh restore has not run setup yet."""
+    so = os.path.join(ROOT, '.deps', 'arena_cache.so')
+    src = os.path.join(ROOT, 'vlib', 'native', 'arena_cache.c')
+    if os.path.exists(so) or not os.path.exists(src):
+        return
+    os.makedirs(os.path.dirname(so), exist_ok=True)
+    for cc in ('gcc', 'clang', 'cc'):
+        try:
+            r = subprocess.run([cc, '-O2', '-shared', '-fPIC', '-o', so + '.tmp%d' % os.getpid(), src],
+                               stdout=subprocess.DEVNULL, stderr=subprocess.DEVNULL)
+            if r.returncode == 0:
+                os.replace(so + '.tmp%d' % os.getpid(), so)
+                return
+        except OSError:
+            pass
+
+
 def run_workers(pid, tier, seed, specs, outdir, timeout):
+    build_native()
     procs = []
     env = child_env()
     pending = list(enumerate(specs))
